@@ -132,8 +132,74 @@ let scale_run id c =
     else count "logs_accepted"
   end
 
+(* ---------- object re-use: one Pipeline object (and the same item instances) run on several commit selections ----------
+   Every run is judged like a run of a fresh pipeline: both Consume logs by exec_ok against the repository history
+   RESTRICTED to the commits handed to that run (renumbered in ascending order, which keeps parents smaller; a parent
+   outside the selection is a dangling edge).  A commit that was not handed to the run - consumed, or found in the
+   state of an instance - is a property failure of its own: the run analysed something of an earlier run. *)
+let reuse_case id c =
+  let n = int_of_sx (List.hd (args (field "n" c))) in
+  let ps = Array.make n [] in
+  List.iter (fun e -> match list_of_sx e with
+    | [ch; p] -> let ch = int_of_sx ch and p = int_of_sx p in
+        if p >= 0 && ch >= 0 && ch < n then ps.(ch) <- p :: ps.(ch)
+    | _ -> failwith "edge") (args (field "edges" c));
+  let ps = Array.map List.rev ps in
+  let sels = args (field "sels" c) in
+  let runs = args (field "runs" (field "obs" c)) in
+  if List.length sels <> List.length runs then failwith "reuse: sels and runs differ in length";
+  count "reuse_cases";
+  let prev = ref [] in
+  List.iteri (fun k (sel, run) ->
+    let mode, commits = (match args sel with
+      | m :: _ :: _ :: cs -> (int_of_sx m, List.map int_of_sx cs) | _ -> failwith "sel") in
+    let sorted = List.sort_uniq compare commits in
+    let num = Hashtbl.create 16 in
+    List.iteri (fun i c -> Hashtbl.replace num c i) sorted;
+    let g = List.map (fun c -> List.filter_map (fun p -> match Hashtbl.find_opt num p with
+        | Some i -> Some (nat_of_int i) | None -> None) ps.(c)) sorted in
+    let status, logs = (match args run with
+      | st :: logs -> (atom st, logs) | _ -> failwith "run") in
+    count "runs"; count "reuse_runs";
+    if k > 0 then begin
+      count (Printf.sprintf "reuse_runs_mode_%d" mode);
+      let p = !prev in
+      if p <> commits && List.length p = List.length commits && p <> [] && List.hd p = List.hd commits
+         && List.nth p (List.length p - 1) = List.nth commits (List.length commits - 1) then
+        count "reuse_runs_same_length_and_ends_other_middle"
+    end;
+    prev := commits;
+    let where = Printf.sprintf "run #%d of one Pipeline object (prepared by mode %d) over the commits [%s]" k mode
+        (String.concat " " (List.map string_of_int commits)) in
+    if status <> "ok" then propfail id (Printf.sprintf "%s: Pipeline.Run did not complete: %s" where status)
+    else
+      List.iter (fun l ->
+        count "logs_judged";
+        add "consume_records" (List.length (args l));
+        (* translate the record into the numbering of the restricted history *)
+        let stale = ref None in
+        let tr x = match Hashtbl.find_opt num x with
+          | Some i -> i | None -> (if !stale = None then stale := Some x); 0 in
+        let recs = List.map (fun r -> match args r with
+          | c :: l :: seen ->
+              let c = int_of_sx c and l = int_of_sx l in
+              let c' = if c < 0 then (stale := Some c; 0) else tr c in
+              { rc_commit = nat_of_int c'; rc_seen = List.map (fun x -> nat_of_int (tr (int_of_sx x))) seen;
+                rc_last = (if l >= 0 then Some (nat_of_int (tr l)) else None) }
+          | _ -> failwith "record") (args l) in
+        match !stale with
+        | Some x ->
+            propfail id (Printf.sprintf "%s: commit %d, which was not handed to this run, was analysed (consumed, or in the state of the consuming instance): %s=%s"
+                           where x (tag l) (show_log l))
+        | None ->
+            if exec_ok g recs then count "logs_accepted"
+            else propfail id (Printf.sprintf "%s: the Consume log is rejected by exec_ok against the history restricted to these commits: %s=%s"
+                                where (tag l) (show_log l))) logs)
+    (List.combine sels runs)
+
 let run_mode () =
   iter_cases (fun id c ->
+    if field_opt "sels" c <> None then reuse_case id c else
     if field_opt "shape" c <> None then scale_run id c else
     let g = graph_of_case c in
     let obs = field "obs" c in
